@@ -7,9 +7,10 @@
                   DEFAULT, raising constructor) or a failing import
      discover fms p   = AutonomousModeSelector.__init__: [Built r] or [Raised e calls]
      init fms pkgname i   the same, starting one step earlier: i is what
-                  import_module(pkgname) did (an ImportError with its e.name, another
-                  exception, or the package), and the test on e.name that tells a
-                  missing package from a failing import is part of the model
+                  import_module(pkgname) did (an ImportError -- ModuleNotFoundError or
+                  not -- with its e.name, another exception, or the package), and the
+                  test that tells a missing package from a failing import is part of
+                  the model
      needed p     the classes with MODE_NAME and not DISABLED of the importable
                   modules other than __init__.py, in scan order
      ctor_calls r the constructor calls __init__ made, as (file, class) pairs
@@ -121,40 +122,71 @@ Proof. exact (fun p r H Hc => proj2 (fms_modes p r H Hc)). Qed.
 
 (* ---- the import of the package itself ------------------------------ *)
 
-(* An ImportError out of import_module(pkgname), no FMS: start-up raises unless
-   e.name is the package or the first component of its dotted name -- only then
-   is it "there is no such package" (tolerated, FMS or not, nothing but "None"
-   offered). *)
-Theorem C14_package_import_policy : forall pkgname ename,
-  (ename <> Some pkgname -> ename <> Some (top_component pkgname) ->
-     init false pkgname (ImportRaisesImportError ename) = Raised ErrPackage []) /\
-  (ename = Some pkgname \/ ename = Some (top_component pkgname) ->
-     forall fms, exists r, init fms pkgname (ImportRaisesImportError ename) = Built r /\ offers_nothing r).
+(* An ImportError out of import_module(pkgname).  "No such package" -- a
+   ModuleNotFoundError whose name is the package or a package it is nested in
+   ([no_such_package], [dotted_prefix]) -- is tolerated, FMS or not, with nothing
+   but "None" offered; every other ImportError raises at start-up without FMS. *)
+Theorem C14_package_import_policy : forall pkgname mnf ename,
+  (~ no_such_package pkgname (ImportRaisesImportError mnf ename) ->
+     init false pkgname (ImportRaisesImportError mnf ename) = Raised ErrPackage []) /\
+  (no_such_package pkgname (ImportRaisesImportError mnf ename) ->
+     forall fms, exists r, init fms pkgname (ImportRaisesImportError mnf ename) = Built r /\ offers_nothing r).
 Proof. exact import_error_policy. Qed.
+
+(* the test of the code is that notion: (pkgname + ".").startswith(n + ".") *)
+Theorem C14_dotted_prefix_is_the_startswith_test : forall n pkgname,
+  prefix (n ++ ".")%string (pkgname ++ ".")%string = true <-> dotted_prefix n pkgname.
+Proof. exact dotted_prefix_iff. Qed.
 
 (* any other exception out of the package's own code: raised *)
 Theorem C14_package_import_other_exception : forall pkgname,
   init false pkgname ImportRaisesOther = Raised ErrPackage [].
 Proof. exact import_other_exception_policy. Qed.
 
-(* A missing module that merely lives under the same top-level name as the
-   package (same first dotted component) is a failing import, not a missing
-   package ... *)
+(* [repaired, /repo 92ab354] an ImportError that is not a ModuleNotFoundError
+   ("from . import helper" in the package's __init__.py raises
+   ImportError(name=<the package>)) raises without FMS WHATEVER its name *)
+Theorem C14_plain_import_error_raises : forall pkgname ename,
+  init false pkgname (ImportRaisesImportError false ename) = Raised ErrPackage [].
+Proof. exact plain_import_error_raises. Qed.
+
+(* ... and so does a ModuleNotFoundError without a name *)
+Theorem C14_nameless_module_not_found_raises : forall pkgname,
+  init false pkgname (ImportRaisesImportError true None) = Raised ErrPackage [].
+Proof. exact nameless_module_not_found_raises. Qed.
+
+(* [repaired, /repo 3697c7e] a package missing at ANY level of the dotted name
+   (first component, one in the middle, the package itself) is a missing
+   package: tolerated, FMS or not, only "None" offered *)
+Theorem C14_missing_package_at_any_level_tolerated : forall fms pkgname n,
+  dotted_prefix n pkgname ->
+  exists r, init fms pkgname (ImportRaisesImportError true (Some n)) = Built r /\ offers_nothing r.
+Proof. exact missing_package_at_any_level_tolerated. Qed.
+
+(* a missing module that is NOT the package or a package it is nested in is a
+   failing import: raised without FMS ... *)
+Theorem C14_missing_other_module_raises : forall pkgname n,
+  ~ dotted_prefix n pkgname ->
+  init false pkgname (ImportRaisesImportError true (Some n)) = Raised ErrPackage [].
+Proof. exact missing_other_module_raises. Qed.
+
+(* ... sharing the first dotted component with the package does not change that ... *)
 Theorem C14_missing_module_in_namespace_raises : forall pkgname n,
-  top_component n = top_component pkgname -> n <> pkgname -> n <> top_component pkgname ->
-  init false pkgname (ImportRaisesImportError (Some n)) = Raised ErrPackage [].
+  top_component n = top_component pkgname -> ~ dotted_prefix n pkgname ->
+  init false pkgname (ImportRaisesImportError true (Some n)) = Raised ErrPackage [].
 Proof. exact missing_module_in_namespace_raises. Qed.
 
 (* ... e.g. a sub-module the package's __init__ needs ("from .helper import X") ... *)
 Theorem C14_missing_submodule_raises : forall pkgname sub,
-  init false pkgname (ImportRaisesImportError (Some (pkgname ++ "." ++ sub)%string)) = Raised ErrPackage [].
+  init false pkgname (ImportRaisesImportError true (Some (pkgname ++ "." ++ sub)%string)) = Raised ErrPackage [].
 Proof. exact missing_submodule_raises. Qed.
 
 (* ... or a module of the parent package ("import robot.helpers" in
-   robot/autonomous/__init__.py; [top] has no dot) *)
+   robot/autonomous/__init__.py) that is not a package the autonomous package is
+   nested in *)
 Theorem C14_missing_sibling_raises : forall top rest sub,
-  top_component top = top -> sub <> rest ->
-  init false (top ++ "." ++ rest)%string (ImportRaisesImportError (Some (top ++ "." ++ sub)%string))
+  ~ dotted_prefix sub rest ->
+  init false (top ++ "." ++ rest)%string (ImportRaisesImportError true (Some (top ++ "." ++ sub)%string))
   = Raised ErrPackage [].
 Proof. exact missing_sibling_raises. Qed.
 
@@ -343,19 +375,6 @@ Theorem C14_mode_called_None_refuted :
     chooser_selected (chooser_of r) (Some "None") = None.
 Proof. exact mode_called_None_not_choosable. Qed.
 
-(* the test on e.name cannot tell "no such package" from an ImportError that names
-   the package although it exists ("from . import helper" in its __init__.py
-   raises ImportError(name=<the package>)): tolerated even without FMS *)
-Theorem C14_import_error_naming_package_refuted : forall fms pkgname,
-  exists r, init fms pkgname (ImportRaisesImportError (Some pkgname)) = Built r /\ offers_nothing r.
-Proof. exact import_error_naming_the_package_is_tolerated. Qed.
-
-(* a package missing in the MIDDLE of a dotted name is neither the name nor its
-   first component: raised without FMS, although nothing but a package is missing *)
-Theorem C14_missing_intermediate_package_refuted :
-  init false "a.b.c" (ImportRaisesImportError (Some "a.b")) = Raised ErrPackage [].
-Proof. exact missing_intermediate_package_raises. Qed.
-
 (* without well-formedness (start() twice) a mode is left without on_disable *)
 Theorem C14_ill_formed_refuted :
   exists r, discover false two_pkg = Built r /\
@@ -445,16 +464,26 @@ Proof.
 Qed.
 
 (* robot/autonomous/__init__.py does "import robot.helpers", which does not exist:
-   raised; "robot.autonomous" or "robot" itself missing: tolerated *)
+   raised; so is "from . import helper" (a plain ImportError naming the package);
+   "robot", "robot.autonomous" -- or "a.b" of "a.b.c" -- not found: tolerated *)
 Example ex_package_import :
-  init false "robot.autonomous" (ImportRaisesImportError (Some "robot.helpers")) = Raised ErrPackage [] /\
-  init false "robot.autonomous" (ImportRaisesImportError (Some "robot.autonomous.helper")) = Raised ErrPackage [] /\
-  init false "robot.autonomous" (ImportRaisesImportError (Some "numpy")) = Raised ErrPackage [] /\
-  init false "robot.autonomous" (ImportRaisesImportError None) = Raised ErrPackage [] /\
-  (exists r, init false "robot.autonomous" (ImportRaisesImportError (Some "robot.autonomous")) = Built r) /\
-  (exists r, init false "robot.autonomous" (ImportRaisesImportError (Some "robot")) = Built r) /\
-  top_component "robot.autonomous" = "robot".
-Proof. repeat split; try reflexivity; eexists; vm_compute; reflexivity. Qed.
+  init false "robot.autonomous" (ImportRaisesImportError true (Some "robot.helpers")) = Raised ErrPackage [] /\
+  init false "robot.autonomous" (ImportRaisesImportError true (Some "robot.autonomous.helper")) = Raised ErrPackage [] /\
+  init false "robot.autonomous" (ImportRaisesImportError true (Some "numpy")) = Raised ErrPackage [] /\
+  init false "robot.autonomous" (ImportRaisesImportError true (Some "rob")) = Raised ErrPackage [] /\
+  init false "robot.autonomous" (ImportRaisesImportError true None) = Raised ErrPackage [] /\
+  init false "robot.autonomous" (ImportRaisesImportError false (Some "robot.autonomous")) = Raised ErrPackage [] /\
+  init false "robot.autonomous" (ImportRaisesImportError false (Some "robot")) = Raised ErrPackage [] /\
+  (exists r, init false "robot.autonomous" (ImportRaisesImportError true (Some "robot.autonomous")) = Built r) /\
+  (exists r, init false "robot.autonomous" (ImportRaisesImportError true (Some "robot")) = Built r) /\
+  (exists r, init false "a.b.c" (ImportRaisesImportError true (Some "a.b")) = Built r) /\
+  dotted_prefix "a.b" "a.b.c" /\ ~ dotted_prefix "a.bc" "a.b.c" /\ ~ dotted_prefix "robot.helpers" "robot.autonomous".
+Proof.
+  repeat split; try reflexivity; try (eexists; vm_compute; reflexivity).
+  - right. exists "c". reflexivity.
+  - intros H. apply dotted_prefix_iff in H. discriminate.
+  - intros H. apply dotted_prefix_iff in H. discriminate.
+Qed.
 
 (* three TimedRobot periods without disable() in between, the chooser selection
    changed from the default to "two" and then to "None": not well-formed in the
@@ -482,7 +511,12 @@ Print Assumptions C14_fms_never_raises.
 Print Assumptions C14_fms_tolerates.
 Print Assumptions C14_fms_modes_are_healthy.
 Print Assumptions C14_package_import_policy.
+Print Assumptions C14_dotted_prefix_is_the_startswith_test.
 Print Assumptions C14_package_import_other_exception.
+Print Assumptions C14_plain_import_error_raises.
+Print Assumptions C14_nameless_module_not_found_raises.
+Print Assumptions C14_missing_package_at_any_level_tolerated.
+Print Assumptions C14_missing_other_module_raises.
 Print Assumptions C14_missing_module_in_namespace_raises.
 Print Assumptions C14_missing_submodule_raises.
 Print Assumptions C14_missing_sibling_raises.
@@ -505,6 +539,4 @@ Print Assumptions C14_only_selected_modes_any_periods.
 Print Assumptions C14_package_failure_policy.
 Print Assumptions C14_fms_key_clash_refuted.
 Print Assumptions C14_mode_called_None_refuted.
-Print Assumptions C14_import_error_naming_package_refuted.
-Print Assumptions C14_missing_intermediate_package_refuted.
 Print Assumptions C14_ill_formed_refuted.
